@@ -21,6 +21,7 @@ class C09(SimCheck):
         "with an abrupt death of the victim at one crossing -- all crossings of the fault phase, or a seeded sample of crash_cap=40 "
         "(quick) / 120 (thorough) when there are more; the journal file image of that instant is what the next incarnation (new "
         "Journaler + new connection object) starts from; followed by the fault-free settle phase (reconnect, Logon, resend); "
+        "1 history in 4 draws the overlap profile (parked / stalled hooks, slow closes, 2-3 breaks); at idle points of any session state (at most 6 per execution) a new Journaler on the file image must load the live counters; "
         "non-trivial = the evaluation restarted the victim at least once; distinct = distinct (history, crossing)"
     )
     assumptions = [
